@@ -9,6 +9,12 @@ package agent
 // floodFrame are scheduling points) is called by 2 (thorough 3) threads with copies that arrived over
 // different neighbours, under all interleavings up to the preemption bound.
 // Oracle: at most one call reports "new"; every other neighbour is sent the announcement at most once.
+//
+// The copies need not have travelled equally far: Extra[t] is the number of further agents copy t passed
+// through between the origin and the delivering neighbour (longer seen-by list and path, higher metric).
+// All assignments of 0..1 (thorough 0..2) extra hops to the threads are enumerated, so every order of
+// "the copy that went the long way round" and "the direct copy" -- one after the other and interleaved --
+// is among the explored schedules.
 
 import (
 	"fmt"
@@ -41,10 +47,11 @@ func (s *c11Sender) GetPeerIDs() []identity.AgentID { return s.peers }
 type c11SchedReplay struct {
 	Sched   bool  `json:"sched"`
 	Threads int   `json:"threads"`
+	Extra   []int `json:"extra,omitempty"` // per thread: agents the copy passed between the origin and the delivering neighbour
 	Choices []int `json:"choices"`
 }
 
-func c11SchedRun(r *vmc.Result, threads int, c *vmc.Chooser) {
+func c11SchedRun(r *vmc.Result, threads int, extra []int, c *vmc.Chooser) {
 	local, origin := nsID(0), nsID(9)
 	nbrs := []identity.AgentID{nsID(1), nsID(2), nsID(3), nsID(4)}
 	rm := routing.NewManager(local)
@@ -57,15 +64,35 @@ func c11SchedRun(r *vmc.Result, threads int, c *vmc.Chooser) {
 			t := t
 			from := nbrs[t]
 			sched.GoNamed(fmt.Sprintf("deliver-from-n%d", t+1), func() {
-				path := []identity.AgentID{from, origin}
-				routes := []protocol.Route{{AddressFamily: protocol.AddrFamilyIPv4, PrefixLength: 8, Prefix: []byte{10, 0, 0, 0}, Metric: 1},
-					{AddressFamily: protocol.AddrFamilyAgent, Prefix: protocol.EncodeAgentPrefix(origin), Metric: 1}}
+				// the copy went origin -> via... -> from -> local; via are agents that are not neighbours of local
+				var via []identity.AgentID
+				if t < len(extra) {
+					for h := 0; h < extra[t]; h++ {
+						via = append(via, nsID(20+4*t+h))
+					}
+				}
+				path := []identity.AgentID{from}
+				for h := len(via) - 1; h >= 0; h-- {
+					path = append(path, via[h])
+				}
+				path = append(path, origin)
+				seenBy := append(append([]identity.AgentID{origin}, via...), from)
+				m := uint16(1 + len(via))
+				routes := []protocol.Route{{AddressFamily: protocol.AddrFamilyIPv4, PrefixLength: 8, Prefix: []byte{10, 0, 0, 0}, Metric: m},
+					{AddressFamily: protocol.AddrFamilyAgent, Prefix: protocol.EncodeAgentPrefix(origin), Metric: m}}
 				enc := &protocol.EncryptedData{Encrypted: false, Data: protocol.EncodePath(path)}
-				news[t] = f.HandleRouteAdvertise(from, origin, "o", 7, routes, enc, []identity.AgentID{origin, from})
+				news[t] = f.HandleRouteAdvertise(from, origin, "o", 7, routes, enc, seenBy)
 			})
 		}
 	})
-	rep := func() any { return c11SchedReplay{true, threads, c.Choices()} }
+	rep := func() any { return c11SchedReplay{true, threads, extra, c.Choices()} }
+	// witness class: did the copies travel equally far?
+	class := "concurrent-deliveries"
+	for t := 1; t < threads && t < len(extra); t++ {
+		if extra[t] != extra[0] {
+			class = "copies-of-different-hop-count"
+		}
+	}
 	if out.Deadlock || out.Horizon || out.Panic != nil {
 		r.HarnessError("C11 sched execution did not finish cleanly: %+v", out)
 		return
@@ -77,29 +104,51 @@ func c11SchedRun(r *vmc.Result, threads int, c *vmc.Chooser) {
 		}
 	}
 	if n > 1 {
-		r.Violate("C11/processed-more-than-once/concurrent-deliveries", fmt.Sprintf("%d concurrent deliveries of announcement (origin, seq 7) from different neighbours were ALL processed as new (%d of %d)", threads, n, threads), rep())
+		r.Violate("C11/processed-more-than-once/"+class, fmt.Sprintf("%d deliveries of announcement (origin, seq 7) from different neighbours (extra hops travelled per copy %v) were processed as new %d times", threads, extra, n), rep())
 	}
 	for p, k := range snd.sent {
 		if k > 1 {
-			r.Violate("C11/forwarded-more-than-once/concurrent-deliveries", fmt.Sprintf("neighbour %s was sent the same announcement %d times", p.ShortString(), k), rep())
+			r.Violate("C11/forwarded-more-than-once/"+class, fmt.Sprintf("neighbour %s was sent the same announcement %d times (extra hops travelled per copy %v)", p.ShortString(), k, extra), rep())
 		}
 	}
-	r.Outcome(fmt.Sprintf("sched|new=%d|sent=%d", n, len(snd.sent)))
+	r.Outcome(fmt.Sprintf("sched|extra=%v|new=%d|sent=%d", extra, n, len(snd.sent)))
 }
 
 func c11Sched(r *vmc.Result) {
-	type cfg struct{ threads, bound int }
-	for _, cf := range vmc.Pick(r, []cfg{{2, 2}}, []cfg{{2, 3}, {3, 2}}) {
+	type cfg struct{ threads, bound, maxExtra int }
+	var cfgs []struct {
+		cfg
+		extra []int
+	}
+	for _, cf := range vmc.Pick(r, []cfg{{2, 2, 1}}, []cfg{{2, 3, 2}, {3, 2, 1}}) {
+		// every assignment of 0..maxExtra extra hops to the threads, all-equal-zero first
+		n := 1
+		for t := 0; t < cf.threads; t++ {
+			n *= cf.maxExtra + 1
+		}
+		for code := 0; code < n; code++ {
+			ex := make([]int, cf.threads)
+			for t, c := 0, code; t < cf.threads; t++ {
+				ex[t] = c % (cf.maxExtra + 1)
+				c /= cf.maxExtra + 1
+			}
+			cfgs = append(cfgs, struct {
+				cfg
+				extra []int
+			}{cf, ex})
+		}
+	}
+	for _, cf := range cfgs {
 		cf := cf
-		st := vmc.Explore(r, func(c *vmc.Chooser) { c11SchedRun(r, cf.threads, c) }, vmc.DFSOpts{Bound: cf.bound})
+		st := vmc.Explore(r, func(c *vmc.Chooser) { c11SchedRun(r, cf.threads, cf.extra, c) }, vmc.DFSOpts{Bound: cf.bound})
 		r.Add("sched_executions", st.Executions)
 		r.Add("evaluations", st.Executions)
 		r.Add("states", st.Executions)
 		r.Add("transitions", st.Points)
 		r.Add("traces_validated_against_impl", st.Executions)
-		r.Nontrivial(fmt.Sprintf("sched|threads=%d|bound=%d", cf.threads, cf.bound))
+		r.Nontrivial(fmt.Sprintf("sched|threads=%d|bound=%d|extra=%v", cf.threads, cf.bound, cf.extra))
 		if r.Shard == 0 {
-			r.Sample(map[string]any{"schedule_half": true, "threads": cf.threads, "preemption_bound": cf.bound, "executions_this_shard": st.Executions})
+			r.Sample(map[string]any{"schedule_half": true, "threads": cf.threads, "extra_hops_per_copy": cf.extra, "preemption_bound": cf.bound, "executions_this_shard": st.Executions})
 		}
 	}
 }
